@@ -40,7 +40,8 @@ def bind(nparams, last, args):
 
 def callee_source(nparams, last, ret):
     ps = [f'p{i + 1}' for i in range(nparams)]
-    head = 'function ff(' + ', '.join(ps) + ('...' if last and nparams else '') + '):'
+    # globals with the parameters' names: a missing parameter is null in the call, it must never fall through to these
+    head = "p1 = 'G1'\np2 = 'G2'\np3 = 'G3'\n" + 'function ff(' + ', '.join(ps) + ('...' if last and nparams else '') + '):'
     body = ["    systemLog('ff:' + jsonStringify(arrayNew(" + ', '.join(ps) + ')))']
     body.append('    return ' + ret)
     return [head] + body + ['endfunction']
@@ -156,6 +157,8 @@ FUNCS = {
     'setg': "function setg():\n    systemGlobalSet('x', 7)\n    x = 8\n    return systemGlobalGet('x')\nendfunction\n",
     'abs': "function abs(v):\n    return 'script-abs'\nendfunction\n",
     'arrayLength': "function arrayLength(a):\n    return 99\nendfunction\n",
+    'va': "function va(a, rest...):\n    arrayPush(rest, a)\n    return arrayLength(rest)\nendfunction\n",
+    'mp': "function mp(x, y):\n    return arrayNew(x, y)\nendfunction\n",
 }
 
 
@@ -175,6 +178,12 @@ def ref_call(state, name, args):
         return 'script-abs', {}
     if name == 'arrayLength':
         return 99, {}
+    if name == 'va':
+        if 'arrayLength' in state['f']:
+            return 99, {}                     # the script function of that name replaced the library function
+        return len(args[1:]) + 1, {}          # a fresh rest array on every call
+    if name == 'mp':
+        return [args[0] if args else None, args[1] if len(args) > 1 else None], {}   # missing parameters are null, never the globals x / y
     raise KeyError(name)
 
 
@@ -229,6 +238,10 @@ def events():
     call_script('setg', '', lambda st: [])
     call_script('abs', '0 - 1', lambda st: [-1])
     call_script('arrayLength', 'arrayNew(1)', lambda st: [[1]])
+    call_script('va', '0', lambda st: [0])
+    call_script('va', '0, 5', lambda st: [0, 5])
+    call_script('mp', '', lambda st: [])
+    call_script('mp', '9', lambda st: [9])
 
     def read(var):
         def fn(st):
@@ -349,7 +362,7 @@ def check_scoping(case, acc):
         return st
 
     start = ref_state(frontier[0])
-    seen.add(repr(sorted(ref_view(start).items())))
+    seen.add(repr(sorted((k, v) for k, v in ref_view(start).items() if k != 'rr')))
     acc.states += 1
     depth = 0
     while frontier:
@@ -376,7 +389,8 @@ def check_scoping(case, acc):
                     names = sorted(k for k in set(uv) | set(rvw) if uv.get(k) != rvw.get(k))
                     acc.violation(c2, rvw, uv, 'globals after the event differ from the reference: ' + ','.join(names))
                     continue
-                key = repr(sorted(rvw.items()))
+                # rr is write-only (no event reads it): states that differ only in rr have the same futures
+                key = repr(sorted((k, v) for k, v in rvw.items() if k != 'rr'))
                 if key not in seen:
                     seen.add(key)
                     acc.states += 1
@@ -418,7 +432,9 @@ HOST_PROGRAMS = [
 ]
 
 
-def host_value(name):
+def host_value(name, kind=0):
+    if kind == 1:
+        return None       # the host disabled / pre-declared the name by binding it to null
     def host_fn(args, options):  # pylint: disable=unused-argument
         return 'host-' + name
     host_fn.__name__ = 'host_' + name
@@ -430,7 +446,8 @@ def check_host(case, acc):
     from bare_script.library import SCRIPT_FUNCTIONS  # pylint: disable=import-outside-toplevel,import-error
     subset = [n for i, n in enumerate(HOST_NAMES) if case['mask'] >> i & 1]
     pname, src = HOST_PROGRAMS[case['p']]
-    glob = {n: host_value(n) for n in subset}
+    kind = case.get('kind', 0)
+    glob = {n: host_value(n, kind) for n in subset}
     mine = dict(glob)
     acc.evals += 1
     acc.states += 1
@@ -440,10 +457,12 @@ def check_host(case, acc):
     try:
         bs.execute_script(bs.parse_script(src), {'globals': glob})
     except bs.BareScriptRuntimeError as exc:
-        if pname == 'def-abs' or 'Undefined function' not in str(exc):
+        if kind == 0 and (pname == 'def-abs' or 'Undefined function' not in str(exc)):
             acc.violation(c2, 'completes', str(exc), 'unexpected runtime error')
-        # abs is only an expression built-in: calling it from a script without a definition is undefined - not reached here
-        return
+            return
+        if kind == 0:
+            return
+        # null-bound names: a call of the null-bound name raises "Undefined function"; the bindings are still checked below
     except Exception as exc:  # pylint: disable=broad-exception-caught
         acc.violation(c2, 'completes', (type(exc).__name__, str(exc)[:200]), 'host exception')
         return
@@ -451,7 +470,7 @@ def check_host(case, acc):
     for n in subset:
         if n == redefined:
             continue
-        if glob.get(n) is not mine[n]:
+        if n not in glob or glob[n] is not mine[n]:
             acc.violation(c2, f'{n} still bound to the host object', canon(glob.get(n)), 'the library or the script overwrote a name the caller supplied')
     for n, f in SCRIPT_FUNCTIONS.items():
         if n in subset or n == redefined:
@@ -459,6 +478,11 @@ def check_host(case, acc):
         if glob.get(n) is not f:
             acc.violation(c2, f'{n} bound to the library function', canon(glob.get(n)), 'library name missing or replaced')
             break
+    if kind == 1:
+        # null bindings: only the "not overwritten" half is checked (calling null is an undefined function / null read)
+        acc.nontrivial += 1
+        acc.outcome((case['mask'], pname, 'null-bound'))
+        return
     # expected rr
     exp = {
         'noop': None,
@@ -507,11 +531,11 @@ def families(tier):
              [names.index('def setg'), names.index('rr=setg()')], [names.index("systemGlobalSet('y',3)"), names.index('def rd')]]
     if tier == 'thorough':
         seeds += [[i] for i in range(len(evs))]
-    hosts = [{'mask': m, 'p': p} for m in range(1 << len(HOST_NAMES)) for p in range(len(HOST_PROGRAMS))]
+    hosts = [{'mask': m, 'p': p, 'kind': k} for k in (0, 1) for m in range(1 << len(HOST_NAMES)) for p in range(len(HOST_PROGRAMS)) if k == 0 or m]
     return [
         Family('convention', fam_convention, split(cc, 16), 'parameters 0..3 x "..." x arguments 0..5 x 8 call paths', expected=len(cc)),
         Family('scoping', fam_scoping, [[s] for s in seeds], f'BFS to fixpoint over {len(evs)} events from {len(seeds)} seed states (each shard a full search)', expected=len(seeds)),
-        Family('host', fam_host, split(hosts, 8), 'every subset of host-supplied names {arrayLength, mathAbs, abs, x} x 8 programs', expected=len(hosts)),
+        Family('host', fam_host, split(hosts, 8), 'every subset of host-supplied names {arrayLength, mathAbs, abs, x} (bound to tagged host objects, and bound to null) x 8 programs', expected=len(hosts)),
     ]
 
 
